@@ -7,9 +7,10 @@
 (* W = [now, started, X, P, Q, cms]                                        *)
 (*   X = [x, lst]: the probed object (x an integer, lst a list changed in  *)
 (*       place); P probes <<x, lst, 2x>>                                   *)
-(*   a sensor record Z = [cap, count, tser, ser, last, cbs]                *)
+(*   a sensor record Z = [cap, count, tcount, tser, ser, last, cbs]        *)
 (*       cap   : data capacity (Inf = unbounded)                           *)
-(*       count : measurements taken                                        *)
+(*       count : measurements taken (periodic ones and those made by hand) *)
+(*       tcount: entries ever appended to the time series (periodic ones)  *)
 (*       tser  : the time series (periodic sensor only)                    *)
 (*       ser   : one series per probe                                      *)
 (*       last  : values of the last measurement                            *)
@@ -24,7 +25,7 @@ EXTENDS Integers, Sequences, FiniteSets
 Inf == 99
 Trim(s, c) == IF c # Inf /\ Len(s) > c THEN SubSeq(s, Len(s) - c + 1, Len(s)) ELSE s
 
-NewSensor(cap, nprobes) == [cap |-> cap, count |-> 0, tser |-> <<>>, ser |-> [i \in 1..nprobes |-> <<>>],
+NewSensor(cap, nprobes) == [cap |-> cap, count |-> 0, tcount |-> 0, tser |-> <<>>, ser |-> [i \in 1..nprobes |-> <<>>],
                             last |-> <<>>, cbs |-> <<>>]
 
 InitW(iv, pcap, n, qcap) ==
@@ -36,6 +37,7 @@ InitW(iv, pcap, n, qcap) ==
 (* one measurement: a value per probe, every series keeps the most recent cap entries *)
 Measure(z, vals, now, withTime) ==
     [z EXCEPT !.count = @ + 1,
+              !.tcount = IF withTime THEN @ + 1 ELSE @,
               !.ser = [i \in DOMAIN @ |-> Trim(Append(@[i], vals[i]), z.cap)],
               !.tser = IF withTime THEN Trim(Append(@, now), z.cap) ELSE @,
               !.last = vals]
@@ -54,6 +56,9 @@ CmsAdd(W, s) == IF s \in W.cms THEN W ELSE AddCb([W EXCEPT !.cms = @ \cup {s}], 
 (* PeriodicSensor._periodic_sense *)
 PSense(W) == [W EXCEPT !.now = W.P.next, !.P.z = Measure(@, PVals(W), W.P.next, TRUE), !.P.next = @ + W.P.iv]
 
+(* sense() called by hand on the periodic sensor: a measurement without a time-series entry *)
+ManualSense(W) == [W EXCEPT !.P.z = Measure(@, PVals(W), W.now, FALSE)]
+
 (* OutputPartSensor._probe_part on a finished part with values vals *)
 Measures(W) == W.Q.cnt - 1 < 0
 Finish(W, vals) ==
@@ -63,5 +68,5 @@ Finish(W, vals) ==
 ----------------------------------------------------------------------------
 Min(a, b) == IF b # Inf /\ b < a THEN b ELSE a
 Bounded(z, timed) == /\ \A i \in DOMAIN z.ser : Len(z.ser[i]) = Min(z.count, z.cap)
-                     /\ (timed => Len(z.tser) = Min(z.count, z.cap))
+                     /\ (timed => Len(z.tser) = Min(z.tcount, z.cap))
 =============================================================================
